@@ -20,6 +20,8 @@ func checkC17(c *Ctx) {
 	c.NotDec = "heights, SubTree closure as a functional property of its loop, and consistency across replicas that were configured with different position lists."
 	c.Expect("C17.1", 5)
 	c.Expect("C17.4", 3)
+	c.Expect("C17.5", 3)
+	c17Height(c)
 
 	// C17.1 immutability
 	for _, f := range []string{"id", "height", "branchFactor", "treePosToID"} {
@@ -344,4 +346,144 @@ func c17NoAliasWrite(c *Ctx) {
 	sortStrings(ra)
 	c.Check(len(bad) == 0 && len(ra) > 0, "C17.1", "Tree.treePosToID is never written through an alias", p.Pos(fv.Pos()),
 		"functions handing out sub-slices of the table: {"+join(ra)+"}; none of their results (nor the field itself) is appended to, stored through, reordered or copied into", join(bad))
+}
+
+// c17Height (C17.5): the height of the tree is the exact level count. treeHeight must be the
+// recurrence  (n, level, h) := (numNodes, 1, 0); while n > 0 { n -= level; level *= bf; h++ }; return h
+// read off the loop's phi nodes, the constructor stores treeHeight(len(positions), branchFactor),
+// and the layout package uses integer arithmetic only (a closed form through floating-point
+// logarithms is off by one at completely filled trees, e.g. log(27)/log(3) > 3).
+func c17Height(c *Ctx) {
+	p := c.P
+	th := p.Func("internal/tree", "treeHeight")
+	if th == nil {
+		c.Unresolved("C17.5", "treeHeight", "anchor missing")
+		return
+	}
+	// integer only
+	var floats []string
+	nf := 0
+	for _, fn := range p.ModFuncs {
+		if funcPkgPath(fn) != modPath+"/internal/tree" || strings.HasSuffix(p.FuncPos(fn), "_test.go") {
+			continue
+		}
+		nf++
+		eachInstr(fn, func(in ssa.Instruction) {
+			v, ok := in.(ssa.Value)
+			if !ok {
+				return
+			}
+			if b, ok := v.Type().Underlying().(*types.Basic); ok && b.Info()&types.IsFloat != 0 {
+				floats = append(floats, p.InstrPos(in)+" in "+fn.Name())
+			}
+		})
+	}
+	c.Check(len(floats) == 0 && nf > 0, "C17.5", "tree layout uses exact integer arithmetic", "internal/tree",
+		itoa(nf)+" functions, no floating-point value", "floating-point computation in the layout package (rounding makes level counts off by one at completely filled trees): "+join(floats))
+
+	// the recurrence
+	reason := func() string {
+		var ret *ssa.Return
+		for _, r := range returnsOf(th) {
+			if ret != nil {
+				return "more than one return"
+			}
+			ret = r
+		}
+		if ret == nil || len(ret.Results) != 1 {
+			return "no single result"
+		}
+		h, ok := ret.Results[0].(*ssa.Phi)
+		if !ok {
+			return "the result is not the loop's level counter"
+		}
+		isConst := func(v ssa.Value, n int64) bool {
+			cst, ok := v.(*ssa.Const)
+			return ok && cst.Value != nil && cst.Int64() == n
+		}
+		// a phi with one initial edge and one back edge of the form  phi <op> operand
+		shape := func(ph *ssa.Phi, init func(ssa.Value) bool, op token.Token, operand func(ssa.Value) bool, commutative bool) bool {
+			if len(ph.Edges) != 2 {
+				return false
+			}
+			for i := 0; i < 2; i++ {
+				bo, ok := ph.Edges[1-i].(*ssa.BinOp)
+				if !init(ph.Edges[i]) || !ok || bo.Op != op {
+					continue
+				}
+				if bo.X == ph && operand(bo.Y) || commutative && bo.Y == ph && operand(bo.X) {
+					return true
+				}
+			}
+			return false
+		}
+		if !shape(h, func(v ssa.Value) bool { return isConst(v, 0) }, token.ADD, func(v ssa.Value) bool { return isConst(v, 1) }, true) {
+			return "the result is not a counter starting at 0 and incremented by 1 per level"
+		}
+		blk := h.Block()
+		iff, ok := blk.Instrs[len(blk.Instrs)-1].(*ssa.If)
+		if !ok {
+			return "the loop header does not test the remaining node count"
+		}
+		cond, ok := iff.Cond.(*ssa.BinOp)
+		if !ok {
+			return "unrecognised loop condition"
+		}
+		var n *ssa.Phi
+		switch {
+		case cond.Op == token.GTR && isConst(cond.Y, 0):
+			n, _ = cond.X.(*ssa.Phi)
+		case cond.Op == token.LSS && isConst(cond.X, 0):
+			n, _ = cond.Y.(*ssa.Phi)
+		}
+		if n == nil || n.Block() != blk {
+			return "the loop does not run while the remaining node count is > 0"
+		}
+		if ret.Block() != blk.Succs[1] && !(len(blk.Succs[1].Instrs) > 0 && blk.Succs[1] == ret.Block()) {
+			return "the counter is not returned when the nodes are used up"
+		}
+		var level *ssa.Phi
+		if !shape(n, func(v ssa.Value) bool { return v == th.Params[0] }, token.SUB, func(v ssa.Value) bool {
+			ph, ok := v.(*ssa.Phi)
+			if ok && ph.Block() == blk {
+				level = ph
+			}
+			return ok
+		}, false) || level == nil {
+			return "the remaining node count is not numNodes reduced by the level size per level"
+		}
+		if !shape(level, func(v ssa.Value) bool { return isConst(v, 1) }, token.MUL, func(v ssa.Value) bool { return v == th.Params[1] }, true) {
+			return "the level size is not 1 multiplied by the branch factor per level"
+		}
+		return ""
+	}()
+	c.Check(reason == "", "C17.5", "treeHeight counts the levels of the positional tree", p.FuncPos(th),
+		"(n, level, h) := (numNodes, 1, 0); while n > 0 { n -= level; level *= bf; h++ }; return h", reason)
+
+	// the constructor stores treeHeight(len(positions), branchFactor)
+	ns := p.Func("internal/tree", "NewSimple")
+	if ns == nil {
+		c.Unresolved("C17.5", "NewSimple", "anchor missing")
+		return
+	}
+	k := NewKeyer(p, ns)
+	okStore, nStore := false, 0
+	eachInstr(ns, func(in ssa.Instruction) {
+		st, ok := in.(*ssa.Store)
+		if !ok {
+			return
+		}
+		fa, ok := st.Addr.(*ssa.FieldAddr)
+		if !ok || fieldVar(fa.X.Type(), fa.Field).Name() != "height" {
+			return
+		}
+		nStore++
+		call, ok := st.Val.(*ssa.Call)
+		if ok && calleeIs(&call.Call, th) && len(call.Call.Args) == 2 &&
+			strings.HasPrefix(k.Key(call.Call.Args[0]), "builtin len(p2)") && k.Key(call.Call.Args[1]) == "p1" {
+			okStore = true
+		}
+	})
+	c.Check(okStore && nStore == 1, "C17.5", "NewSimple: height = treeHeight(len(positions), branchFactor)", p.FuncPos(ns),
+		"the stored height is the level count of the configured size and branch factor", "Tree.height is not treeHeight(len(treePositionIDs), branchFactor)")
 }
